@@ -18,7 +18,7 @@ RULE = (
     "A generic parent machine executes, per command event, one actor action with callable params read from the event: "
     "spawnChild (explicit id, optional systemId), spawn_<service> (auto id), sendTo by full id / bare id / systemId / "
     "service key / unknown name, delayed sendTo with a send id, cancel(send id), forwardTo, stopChild; children append "
-    "every received (seq) to their mailbox, can sendParent, spawn a grandchild (optionally with a systemId) and stopChild it "
+    "every received (seq) to their mailbox, can sendParent, escalate (the parent logs every xstate.error.actor.<id> it handles), spawn a grandchild (optionally with a systemId) and stopChild it "
     "themselves; optional epilogue: a fresh child (blocking spawn on sync) spawns a grandchild and then reaches its own "
     "final state before the parent is stopped. Hypothesis draws sequences of <=14 "
     "commands and virtual-time advances; both engines (sync under the deterministic scheduler, child thread first). "
@@ -42,7 +42,7 @@ logging.disable(logging.CRITICAL)
 
 def plan(tier):
     q = tier == "quick"
-    return [{"name": "main", "examples": 1500 if q else 60000}]
+    return [{"name": "main", "examples": 5000 if q else 60000}]
 
 
 CMD = st.one_of(
@@ -56,6 +56,7 @@ CMD = st.one_of(
     st.tuples(st.just("STOPC"), st.sampled_from(["k1", "k2", "k3", "sysA", "nobody"])).map(list),
     st.tuples(st.just("ECHO"), st.sampled_from(["k1", "k2"])).map(list),
     st.tuples(st.just("DECHO"), st.sampled_from(["k1", "k2"]), st.sampled_from([20, 50])).map(list),
+    st.tuples(st.just("ESC"), st.sampled_from(["k1", "k2", "k11", "sysA", "kid"])).map(list),
     st.tuples(st.just("GRAND"), st.sampled_from(["k1", "k2"]), st.sampled_from([None, None, "sysG1", "sysG2"])).map(list),
     st.tuples(st.just("GSTOP"), st.sampled_from(["k1", "k2"])).map(list),
     st.tuples(st.just("ADV"), st.sampled_from([10, 30, 60])).map(list),
@@ -85,6 +86,7 @@ def machines():
         "ECHO": {"actions": [{"type": "xstate.sendParent", "params": lambda a: {"event": {"type": "FROMKID", "seq": a["event"].payload.get("seq")}}}]},
         "DECHO": {"actions": [{"type": "xstate.sendParent", "params": lambda a: {"event": {"type": "FROMKID", "seq": a["event"].payload.get("seq")},
                                                                                   "delay": a["event"].payload.get("delay")}}]},
+        "ESC": {"actions": [{"type": "xstate.escalate", "params": lambda a: {"error": a["event"].payload.get("seq")}}]},
         "GRAND": {"actions": [{"type": "xstate.spawnChild", "params": lambda a: {"src": "grand", "id": "g", "systemId": a["event"].payload.get("gsys")}}]},
         "GSTOP": {"actions": [{"type": "xstate.stopChild", "params": {"id": "g"}}]},
         "FIN": "fin",
@@ -109,12 +111,18 @@ def machines():
         "KFIN": {"actions": [{"type": "xstate.sendTo", "params": lambda a: {"to": a["event"].payload.get("to"), "event": {"type": "FIN"}}}]},
         "SPAWN_BLOCK": {"actions": [{"type": "spawn_blocking_kid", "params": {"id": "z"}}]},
         "FROMKID": {"actions": ["fromkid"]},
+        "ESC": {"actions": [{"type": "xstate.sendTo", "params": lambda a: {"to": a["event"].payload.get("to"), "event": {"type": "ESC", "seq": a["event"].payload.get("seq")}}}]},
+        # escalations arrive as xstate.error.actor.<child id>; only an exact key can catch them
+        **{"xstate.error.actor.par:" + k_: {"actions": ["esc"]} for k_ in ("k1", "k2", "k3", "k11")},
     }}}}
+
+    def esc(i, c, e, a):
+        c["esc"] = list(c.get("esc") or []) + [[e.type.split("actor.", 1)[1], e.payload.get("error")]]
 
     def fromkid(i, c, e, a):
         c["fromkid"] = list(c.get("fromkid") or []) + [e.payload.get("seq")]
 
-    return create_machine(par_cfg, logic=MachineLogic(actions={"fromkid": fromkid}, services={"kid": kid}))
+    return create_machine(par_cfg, logic=MachineLogic(actions={"fromkid": fromkid, "esc": esc}, services={"kid": kid}))
 
 
 # ----------------------------------------------------------------------------- model
@@ -129,6 +137,7 @@ class Model:
         self.n_auto = 0
         self.gen = 0
         self.pending_echo = []   # (due_ms, child id, seq, generation of the child)
+        self.esc = []            # [child id, seq] for every escalation the parent has a handler for
 
     def alive(self):
         return [a for a in self.order if self.actors[a]["alive"]]
@@ -164,7 +173,7 @@ def _snapshot(it):
     for aid, rec_ in snap["actors"].items():
         s = rec_["snapshot"]
         actors[aid] = {"inbox": s["context"].get("inbox"), "status": s["status"], "children": sorted(s["actors"].keys())}
-    return {"actors": actors, "system": {k: v for k, v in snap["system"].items()}, "fromkid": snap["context"].get("fromkid"),
+    return {"actors": actors, "system": {k: v for k, v in snap["system"].items()}, "fromkid": snap["context"].get("fromkid"), "esc": snap["context"].get("esc"),
             "live_system": {k: v.id for k, v in it.system.get_all().items()}}
 
 
@@ -192,6 +201,8 @@ def _payload(cmd, seq, model):
         return "GSTOP", {"to": cmd[1], "seq": seq}
     if k == "DECHO":
         return "DECHO", {"to": cmd[1], "delay": cmd[2], "seq": seq}
+    if k == "ESC":
+        return "ESC", {"to": cmd[1], "seq": seq}
     raise ValueError(k)
 
 
@@ -376,6 +387,16 @@ def check_case(case) -> CaseResult:
             tgt, how = m.resolve(cmd[1])
             if tgt is not None:
                 m.fromkid.append(i)
+        elif k == "ESC":
+            tgt, how = m.resolve(cmd[1])
+            if how == "unspecified":
+                judged = False
+                left = "unjudged"
+                break
+            if tgt is not None and "<auto" not in tgt:
+                # the child escalates: its parent - and nobody else - receives xstate.error.actor.<id> once
+                m.esc.append([tgt, i])
+                nontrivial = nontrivial or len(m.alive()) >= 2
         elif k == "DECHO":
             tgt, how = m.resolve(cmd[1])
             if tgt is not None:
@@ -471,6 +492,9 @@ def check_case(case) -> CaseResult:
             break
         if sorted(o["live_system"].items()) != sorted(m.system.items()):
             res.violate(f"{engine}|system-registry-differs|after-{k}", {"step": i, "cmd": cmd, "expected": m.system, "real": o["live_system"]})
+            break
+        if (o["esc"] or []) != m.esc:
+            res.violate(f"{engine}|escalate-delivery-differs|after-{k}", {"expected": m.esc, "real": o["esc"]})
             break
         if (o["fromkid"] or []) != m.fromkid:
             res.violate(f"{engine}|sendParent-delivery-differs|after-{k}", {"expected": m.fromkid, "real": o["fromkid"]})
